@@ -56,7 +56,8 @@ Step(e) ==
     \/ e.op = "case" /\ CaseOK(e) /\ UNCHANGED vars
     \/ e.op = "obs" /\ VEq(sub.last, e.val) /\ VEq(auto.last, e.alast) /\ sub.pending = e.done /\ UNCHANGED vars
     \/ e.op = "set" /\ e.var \in {"ma", "mb"} /\ SetM(e.var, e.v) /\ Obs(e)
-    \/ e.op = "set" /\ e.var = "st" /\ SetS(e.v) /\ Obs(e)
+    \/ e.op = "set" /\ e.var \in SNames /\ SetS(e.var, e.v) /\ Obs(e)
+    \/ e.op = "setm" /\ SetSM(e.var, e.v) /\ Obs(e)
     \/ e.op = "set" /\ e.var = "sw" /\ SetW(e.v) /\ Obs(e)
     \/ e.op = "set" /\ e.var = "cv" /\ SetC(e.v) /\ Obs(e)
     \/ e.op = "set" /\ e.var = "px" /\ SetP(e.p, e.v) /\ Obs(e)
